@@ -6,6 +6,7 @@ package props
 import (
 	"fmt"
 	"runtime/debug"
+	"voicheck/elin"
 
 	"voicheck/econst"
 	"voicheck/load"
@@ -122,6 +123,16 @@ func init() {
 		if c.Tier == "thorough" {
 			run.Rule(id+"-mutants", "seeded source edit (in-memory overlay): a value-changing edit is reported naming the constant, a behaviour-preserving edit stays silent", 14)
 			econst.RunMutants(run, id, func(cfg string) *load.Program { return c.Prog(cfg) })
+		}
+		// constants that live inside the limb-level code (bias vectors, masks, 19, 121666, L, LFACTOR) are
+		// decided through the value identities they take part in
+		if c.Preload("purego", "f32") {
+			for _, id := range []string{"purego", "f32"} {
+				run.SetConfig(id)
+				elin.CheckField(run, c.Prog(id), "LIN")
+				elin.CheckScalarPack(run, c.Prog(id), "LIN")
+				elin.CheckMul(run, c.Prog(id), "MUL")
+			}
 		}
 	}
 }
